@@ -738,7 +738,7 @@ pub fn run(ctx: &mut Ctx) {
     }
 
     // ---- generated messages --------------------------------------------------------------------
-    let n = ctx.n(2500, 40000);
+    let n = ctx.n(5000, 40000);
     for i in 0..n {
         let request = i % 3 != 2;
         let m = gen_message(&mut r, request);
